@@ -189,6 +189,33 @@ def run(report, p):
             if isinstance(n, ast.Raise):
                 r4.check(False, nu, n, "needs_update can raise on the main thread")
 
+    # ------------------------------------------------------------------ R20.6
+    r6 = report.rule(
+        "R20.6",
+        "everything the server sent is parsed in the checker thread: on the main thread (result callbacks and what they reach) conversions that can raise "
+        "(version.parse, int(), json decoding, indexing of the response) are applied to package constants only, never to state the thread filled from the network",
+        1,
+    )
+    main_reach = p.reachable([cb.qual for cb in callbacks], stop=set(runs))
+    pr = prov(p)
+    for fq in sorted(main_reach):
+        f = p.funcs[fq]
+        if f.cls not in ucs:
+            continue
+        for call, tg in p.calls[fq]:
+            risky = any(t.endswith(("version.parse", "version.Version")) or t in ("builtin:int", "builtin:float") or t.endswith(("json.loads",)) or t.startswith("extm:requests") for t in tg)
+            if not risky:
+                continue
+            r6.instance(f, call, f"main-thread conversion {norm(call)[:60]}")
+            bad = None
+            for a in list(call.args) + [k.value for k in call.keywords]:
+                for o in pr.origins(a, f):
+                    full = pr.resolve(o, depth=2)
+                    for sub in __import__("sa.flow", fromlist=["subterms"]).subterms(full):
+                        if sub[0] in ("attr", "self", "param", "unknown") or (sub[0] == "call" and (sub[1].startswith("extm:requests") or sub[1].endswith(".get"))):
+                            bad = norm(a)
+            r6.check(bad is None, f, call, f"`{norm(call)[:60]}` runs on the main thread (reached from the group's result callback) on `{bad}`, which the checker thread filled from the server's answer: a malformed tag raises there and changes the command's exit code", construct=f"main-thread parse of server data: {norm(call)[:60]}")
+
     # ------------------------------------------------------------------ R20.5
     r5 = report.rule("R20.5", "both CLI groups register an identical result callback and create the checker at import without joining", 2)
     dumps = {}
